@@ -23,6 +23,18 @@ class Injected(Exception):
         self.tag = tag
 
 
+# the injected faults are exceptions of many standard kinds (a hook that fails with an AttributeError, a KeyError, an
+# OSError ... is still a hook that failed): subclasses of Injected, picked in rotation
+_KINDS = [type("Injected" + b.__name__, (Injected, b), {}) for b in
+          (ValueError, AttributeError, KeyError, LookupError, TypeError, RuntimeError, OSError, ImportError, AssertionError)]
+_kind_counter = [0]
+
+
+def injected(tag):
+    _kind_counter[0] += 1
+    return _KINDS[_kind_counter[0] % len(_KINDS)](tag)
+
+
 class W:
     """synthetic wrapper / leaf stack item"""
 
@@ -92,7 +104,7 @@ class World:
     def _ctx(self, pyframe, origin, next_inner):
         f = self.frame_id.get(id(pyframe))
         if f is not None and self.tables["C"][f - 1]:
-            raise Injected(["ctx", f])
+            raise injected(["ctx", f])
         return self._orig_ctx(pyframe, origin, next_inner)
 
     def _unwrap(self, w):
@@ -104,7 +116,7 @@ class World:
         if k == "none":
             return None
         if k == "raise":
-            raise Injected(["unwrap", w.i])
+            raise injected(["unwrap", w.i])
         if k == "one":
             return xs[0]
         if k == "seq":
@@ -116,7 +128,7 @@ class World:
             for x in xs:
                 yield x
             if fail:
-                raise Injected(["iter", w.i])
+                raise injected(["iter", w.i])
 
         return it()
 
@@ -128,7 +140,7 @@ class World:
                 return None
             if k == "raise":
                 frame.hide = True
-                raise Injected(["elab", f])
+                raise injected(["elab", f])
             xs = [self.obj(x) for x in r["xs"]]
             if k == "insert":
                 xs.append(next_inner)
